@@ -234,6 +234,37 @@ type vgTokens struct {
 	R []lexer.Token `@( B C? )?`
 }
 
+// pointer-typed token captures
+type vgPtrTokens struct {
+	H string         `@A?`
+	T *lexer.Token   `@B?`
+	R *[]lexer.Token `@( A C? )?`
+}
+
+// a []lexer.Token field captured several times in a node that also has Tokens
+type vgTokTwiceInner struct {
+	Tokens []lexer.Token
+	L      []lexer.Token `@B ( C @B )*`
+}
+
+type vgTokTwice struct {
+	Tokens []lexer.Token
+	A      string             `@A?`
+	In     []*vgTokTwiceInner `@@*`
+}
+
+// three levels of embedding above two tagged sibling fields
+type vgEmb3 struct {
+	Var   string `( @A`
+	Const string `| @B )`
+}
+type vgEmb2 struct{ vgEmb3 }
+type vgEmb1 struct{ vgEmb2 }
+type vgEmb0 struct {
+	vgEmb1
+	Tail string `@C?`
+}
+
 type vgEmptyTok struct {
 	T lexer.Token `@( "a"? )`
 	B string      `@B`
@@ -341,6 +372,9 @@ var (
 
 func VH_C01_Seq()        { vhC01[vgSeq](vhNoElide) }
 func VH_C01_Shadow()     { vhC01[vgShadow](vhElideWs) }
+func VH_C01_Embedded3()  { vhC01[vgEmb0](vhElideWs) }
+func VH_C01_PtrTokens()  { vhC01[vgPtrTokens](vhElideWs) }
+func VH_C01_TokTwice()   { vhC01[vgTokTwice](vhElideWs) }
 func VH_C01_FarTypes()   { vhC01[vgGroup](vhFarElide) }
 func VH_C01_Alt()        { vhC01[vgAlt](vhNoElide) }
 func VH_C01_Opt()        { vhC01[vgOpt](vhNoElide) }
@@ -474,6 +508,8 @@ func VH_C10_NegTail() { vhC10[vgNegTail](vhElideWsCm) }
 func VH_C10_FarTypes()    { vhC10[vgAlt](vhFarElide) }
 func VH_C10_FarTypesSeq() { vhC10[vgSeq](vhFarElide) }
 
+func VH_C10_PtrTokens() { vhC10[vgPtrTokens](vhElideWs) }
+
 func VH_C10_Canary() { VH_C01_Canary() }
 
 func VH_C11_Pos()      { vhC11[vgPos](vhElideWs) }
@@ -526,6 +562,8 @@ type vgTokensOnly struct {
 func VH_C11_EndOnly()    { vhC11[vgEndOnly](vhElideWs) }
 func VH_C11_PosMixed()   { vhC11[vgPosMixed](vhElideWs) }
 func VH_C11_TokensOnly() { vhC11[vgTokensOnly](vhElideWs) }
+
+func VH_C11_TokTwice() { vhC11[vgTokTwice](vhElideWs) }
 
 func VH_C11_Canary() { VH_C01_Canary() }
 
